@@ -2,7 +2,7 @@
 from vf import rt, scen, sched, world as W
 from vf.commands import C
 from vf.runner import CH
-from harness import common as K
+from harness import common as K, kpair
 
 PARTITION = None
 NMAX = 3  # puts per sequence; the worker sets 4 for the thorough tier (through the partition tuple)
@@ -363,4 +363,4 @@ def obligations(tier):
         obs.append(CH('W_three_processes', MOD, 'w_conc3', timeout=14000, partitions=parts_x, twin=False, engine='W',
                       regime='selector', encodes=K.PUT_FUNCS + ['vf.sched replay-stepping'], stubs=K.STUBS,
                       bounds='3 concurrent trash-put: P0, P1, P2 each run to a chosen shared instant, then complete in order; same restriction; 2 x 3'))
-    return obs
+    return kpair.obligations(tier) + obs
